@@ -2,6 +2,8 @@ import Driver.Util
 import InfluxVerif.Model.MetaCodec
 import InfluxVerif.Model.Routing
 import InfluxVerif.Model.Retention
+import InfluxVerif.Model.Auth
+import InfluxVerif.Gen.C16
 import InfluxVerif.Gen.C06
 namespace Driver.MetaD
 open InfluxVerif.Meta
@@ -85,11 +87,20 @@ def parseCmd (toks : List String) : Option Cmd :=
   | ["dropsub", db, rp, n] => some (.dropSub (nm db) (nm rp) (nm n))
   | _ => none
 
+/-- statement `id` of the generated table as a model statement -/
+def stmtOf (id : Nat) : Option InfluxVerif.Auth.Stmt :=
+  (InfluxVerif.Gen.C16.statements[id]?).map fun (k, adm, ps) =>
+    { kind := k, createsAdmin := adm, privs := ps.map fun (a, n, p) => ⟨a, n, p⟩ }
+
+/-- bcrypt stands behind this oracle: hash token `h<k>` is the hash of password `p<k>` -/
+def verifyTok (pw hash : String) : Bool := pw.startsWith "p" && hash == "h" ++ (pw.drop 1).toString
+
 structure St where
   data : Data := {}
   auto : Bool := true
   k : Nat := 0
   held : Option Data := none
+  node : InfluxVerif.Auth.Node := {}
 
 /-- request bodies of C07: schema type numbers → names (the types the harness can build) -/
 def typeName : Nat → Option String
@@ -161,6 +172,27 @@ def step (s : St) (line : String) : St × String :=
       ({ s with data := d', k := d'.index },
         s!"marked={joinCsv (r.marked.map fun m => toString m.2.2)} deleted={joinCsv (r.deletedLocal.map toString)} prune={if r.pruned then 1 else 0}")
     | _, _, _, _ => (s, "bad-op")
+  | ["poll"] => ({ s with node := InfluxVerif.Auth.authPoll s.node s.data.users }, "ok")
+  | ["authq", u, db, ids] =>
+    match allSome ((splitCsv ids).map String.toNat?) with
+    | some ids =>
+      match allSome (ids.map stmtOf) with
+      | some q =>
+        let user := if u = "-" then none else InfluxVerif.Auth.lookupUser s.node (nm u)
+        if u ≠ "-" && user.isNone then (s, "nouser") else
+        (s, if InfluxVerif.Auth.authorizeQuery s.node.users.length user q (nm db) then "allow" else "deny")
+      | none => (s, "bad-op")
+    | none => (s, "bad-op")
+  | ["authw", u, db] =>
+    (s, if InfluxVerif.Auth.authorizeWrite s.node.users (nm u) (nm db) then "allow" else "deny")
+  | ["authb", u, pw] =>
+    let (n, a) := InfluxVerif.Auth.authBegin verifyTok s.node (nm u) pw
+    ({ s with node := n }, match a with | .accepted => "accepted" | .rejected => "rejected" | .verified => "verified")
+  | ["authf"] => ({ s with node := InfluxVerif.Auth.authFinish s.node }, "ok")
+  | ["authn", u, pw] =>
+    let (n, a) := InfluxVerif.Auth.authBegin verifyTok s.node (nm u) pw
+    let n' := if a = .verified then InfluxVerif.Auth.authFinish n else n
+    ({ s with node := n' }, if a = .rejected then "rejected" else "accepted")
   | ["raw", t, e] =>
     match t.toNat?, e.toNat? with
     | some t, some e =>
